@@ -136,10 +136,12 @@ func c18bridge(steps, bound, slice int) *explore.Scenario {
 					}
 				case strings.HasPrefix(op, "DropNext"):
 					fmt.Sscanf(op, "DropNext(%d,%d)", &d, &a)
-					if m.reordN[d] > 0 || m.filter[d] {
+					if m.reordN[d] > 0 {
 						script = append(script, "skip")
-						continue // precedence between pending impairments is not specified
+						continue // precedence between a drop and a reorder window is not specified
 					}
+					// with a filter installed: "the next n writes" are the next n calls of Write, whatever the filter
+					// would have said about them (a write is delivered iff it is outside the window AND passes the filter)
 					script = append(script, op)
 					br.DropNextNWrites(d, a)
 					m.dropN[d] = a
@@ -178,7 +180,7 @@ func c18bridge(steps, bound, slice int) *explore.Scenario {
 						m.q[d][x], m.q[d][y] = m.q[d][y], m.q[d][x]
 					}
 				case strings.HasPrefix(op, "Filter"):
-					if m.reordN[0] > 0 || m.dropN[0] > 0 {
+					if m.reordN[0] > 0 {
 						script = append(script, "skip")
 						continue
 					}
@@ -422,6 +424,6 @@ func init() {
 			return []*explore.Scenario{c18bridge(5, 0, 8), c18bridge(4, 0, 2), c18bridge(3, 0, 0), c18bridge(3, 1, 8), c18dpipe(6)}
 		},
 		Rule: "Bridge: every script of the stated length over {writes of 0/1/3-byte messages in both directions, DropNextNWrites, ReorderNextNWrites (1,2,3; also repeated), Drop, Reorder, Filter, Tick, Process} with parked reader threads (slices of 0, 2, 8 bytes), compared per endpoint with a script interpreter; dpipe: every script over {writes both ways incl. empty, reads with short/long slices, Close of either end, filling the 1000-message buffer}",
-		Assumptions: []string{"precedence between simultaneously pending impairments and Drop with an offset beyond the queue are not specified by the property: such steps are skipped; ReorderNextNWrites re-armed while a window is partly collected: messages are compared as a multiset for that direction (nothing lost, duplicated or invented; order within the merged window unspecified)",
+		Assumptions: []string{"precedence between a reorder window and a drop window or filter, and Drop with an offset beyond the queue, are not specified by the property: such steps are skipped; a drop window counts calls of Write (a write is delivered iff it is outside the window and passes the filter); ReorderNextNWrites re-armed while a window is partly collected: messages are compared as a multiset for that direction (nothing lost, duplicated or invented; order within the merged window unspecified)",
 			"a one-message reordering delivers that message (reversal of one element)"}})
 }
